@@ -110,6 +110,10 @@ class Scene(Geometry3D):
         transform : (4, 4)
           Homogeneous transformation matrix.
         """
+        transform = np.asanyarray(transform, dtype=np.float64)
+        if transform.shape != (4, 4):
+            # anything else would be stored on the edges and break the graph
+            raise ValueError("transform must be (4, 4)!")
         base = self.graph.base_frame
         for child in self.graph.transforms.children[base]:
             combined = np.dot(transform, self.graph[child][0])
